@@ -191,6 +191,10 @@ def run_semantic(res, sources, opts=None, count=30, extra_case=None, label="prog
         obs_names = list(v.get("obs") or [])
         proved = bool(pnames) and all(o in pnames for o in obs_names)
         info["proved"] = proved
+        cells = mt.get("cells") or []
+        stats["cells"] += mt.get("n_mems", 0)
+        stats["proved_cells"] += sum(1 for x in cells if x.get("proved"))
+        info["proved_cells"] = sum(1 for x in cells if x.get("proved"))
         info["proved_names"] = sorted(pnames)
         stats["proved_outputs"] += len(pnames)
         if proved:
